@@ -103,7 +103,7 @@ fn prec(e: &Expr) -> u8 {
 }
 
 fn lit_text(s: &str, suf: &Option<char>, conv: &Conv) -> String {
-    let mut t = lit::render(s, conv, false);
+    let mut t = lit::render(s, conv, conv.group);
     if let Some(c) = suf {
         t.push(*c);
     }
